@@ -5,7 +5,11 @@
      W n s1 e1 g1 s2 e2 g2 ...     -> harper-wasm Linter::lint after group.lint: n = 1 when no hash is stored, g = 1 ignored; prints reported ids
      F n | src cps | s e g k cps | ... -> lint as W, then one suggestion (kind k, chars) per reported lint, last first; "P" or "O cps"
      C s e s e ... | k s e k s e ... | ... -> CurrencyPlacement::lint: the (start,end) pairs whose text is wrong, then one section per chunk
-                                      (k: 0 number 1 currency 2 other punctuation 3 whitespace 4 other); "P" or the spans of the lints *)
+                                      (k: 0 number 1 currency 2 other punctuation 3 whitespace 4 other); "P" or the spans of the lints
+     L c s1 e1 h1 s2 e2 h2 ...     -> harper-cli's lint arm on raw lints (span, hash of the message): c = 1 for --count; "N n", "E" (No lints found)
+                                      or "L coloured positions | anchor hash anchor hash ..." (pairs sorted) as read off the printed report
+     M s e s e | s e | ...          -> merge_linters!: one section per sub-linter in declaration order; prints the kept ids *)
+let rec htriples = function a :: b :: h :: t -> ((nat_of_int a, nat_of_int b), h) :: htriples t | _ -> []
 let rec pairs = function a :: b :: t -> (nat_of_int a, nat_of_int b) :: pairs t | _ -> []
 let rec triples = function a :: b :: c :: t -> ((nat_of_int a, nat_of_int b), c <> 0) :: triples t | _ -> []
 let rec ktriples = function k :: a :: b :: t -> (nat_of_int k, (nat_of_int a, nat_of_int b)) :: ktriples t | _ -> []
@@ -62,4 +66,20 @@ let () =
               | None -> print_endline "P"
               | Some r -> print_endline (spans_line r))
          | _ -> print_endline "?")
+    | 'L' ->
+        (match ints_of_line body with
+         | c :: rest ->
+             let items = htriples rest in
+             let hashes = Array.of_list (List.map snd items) in
+             (match run_cli_report (c <> 0) (List.map fst items) with
+              | (Some n, _) -> print_endline ("N " ^ string_of_int (int_of_nat n))
+              | (None, None) -> print_endline "E"
+              | (None, Some (pos, labels)) ->
+                  let ls = List.sort compare (List.map (fun (a, i) -> (int_of_nat a, hashes.(int_of_nat i))) labels) in
+                  print_endline (String.trim ("L " ^ String.concat " " (List.map (fun p -> string_of_int (int_of_nat p)) pos) ^ " | "
+                                 ^ String.concat " " (List.map (fun (a, h) -> string_of_int a ^ " " ^ string_of_int h) ls))))
+         | _ -> print_endline "?")
+    | 'M' ->
+        let kept = run_merge_ids (List.map (fun sec -> pairs (ints_of_line sec)) (split_bar body)) in
+        print_endline (String.concat " " (List.map (fun k -> string_of_int (int_of_nat k)) kept))
     | _ -> print_endline "?")
